@@ -4,16 +4,15 @@ from .mir import callee, callee_matches, Prov
 from .ctx import where_of
 
 EXPLANATION = (
-    "Rules on the lexer's MIR: (delimited) event analysis over every scanner — on each path to an exit that produces "
-    "an identifier, number, boolean or character token, the last event before the exit must be delimiter evidence "
-    "(a propagated test_delimiter on the peeked character, the peek()==None edge, or a callee all of whose Ok-returns "
-    "end that way), not a character-consuming event; arms that the dispatcher can never select are pruned using "
-    "try_next's own dispatch table; (charclass) decision tables read by abstract evaluation: whitespace set of "
-    "try_next = whitespace set of the atmosphere loop = {space, tab, LF, CR}; delimiter set of test_delimiter = the set "
-    "after which `.` is a Period = whitespace + ( ) \" ; |; comment terminators are whitespace; digits dispatch to the "
-    "number scanner, signs followed by a digit or `.` too; (escapes) the string escape table against R7RS 6.7; "
-    "(position) every character is consumed through Lexer::advance whose bookkeeping is LF => line+1, column=1, other "
-    "=> column+1; (quote) the symbol built for 'x is the keyword routed to transform_quote.")
+    "Whole-lexer abstract runs (engine/rules/lexrun.py: the lexer's MIR evaluated on a character sequence, no "
+    'binary is run) give finite tables the property is about: (delimited) token class x follower character — for '
+    '9 token classes, 10 non-delimiter followers and 9 delimiters, a token is never split from a following non- '
+    'delimiter and is ended by every delimiter; (consume-inspected) dataflow: advance(k) consumes at most the '
+    'peeked character plus characters that were examined; (charclass) whitespace set of try_next = whitespace set '
+    'of the atmosphere loop = {space, tab, LF, CR}; delimiter set of test_delimiter = whitespace + ( ) " ; |; '
+    'comment terminators; digit / sign dispatch; (escapes) the string escape table against R7RS 6.7; (position) '
+    'Lexer::advance bookkeeping LF => line+1, column=1, other => column+1, and every token is located from it; '
+    "(quote) the symbol built for 'x is the keyword routed to transform_quote.")
 NOT_DECIDED = ("the datum denoted by each token (numeric conversion, string contents) and list/vector construction for "
                "all nestings; tokens outside the supported grammar.")
 
